@@ -39,6 +39,15 @@ REG = {
         ],
         "trusted_base": ["std++ gmap", "strace 6.1 (-f -y -xx) and the trace parser / directory replayer in harness/c20.go (cross-checked on every run: the replayed directory must load to the same state as the directory the child left)", "modelled, not verified: kernel file-system semantics of open/write/rename/link/unlink"],
     },
+    "C19": {
+        "assumptions": [
+            "the critical sections are those of the code as repaired: HandleGetMsgs (Seek + ReadAll) and HandleTranOldPostNews (Write) under messageBoardMu, the agreement's Seek + ReadAll at login under Server.agreementMu; that every use of the two stores is inside such a section is re-established from the sources on every run (Gen/Locks.v, theorem C19_cursor_use_is_serialised)",
+            "which interleavings the Go scheduler produces is not modelled: the theorems quantify over every order the lock can admit; the concurrent batches of the correspondence are a search over real schedules, not the proof",
+            "io.ReadAll is modelled as: read chunks of any positive capacity until the empty chunk",
+            "texts stay below the 64 KiB field limit (65,535 bytes); the date in a post is the harness's reading of the clock in the server's format (minute resolution)",
+        ],
+        "trusted_base": ["translator: Gen/Locks.v (linear Lock/Unlock scan per function)", "modelled, not verified: sync.Mutex, goroutine scheduling, io.ReadAll's buffer growth"],
+    },
     "C05": {
         "assumptions": [
             "the governing privilege per request class is fixed by the reference table coq/Auth/GuardSpec.v (from the protocol document's Access lines and the property text; spec/privileges.md)",
